@@ -7,15 +7,32 @@ Property theorems only (helper lemmas live in `Lemmas/Transcripts.lean`).
 -/
 namespace PdtVerif.Transcripts
 
-/-- **C11_workers**: reading with a pool (ordered `imap` over chunks of any size) returns what
-the single-process loop returns — same list, same first error. -/
-theorem C11_workers (chunkSize : Nat) (lines : List (List Char)) :
+/-- **C11_workers**: reading with a pool (ordered `imap` over chunks of any size `≥ 1`) returns what
+the single-process loop returns — same list, same first error. The guard is the pool's own:
+`Pool.imap(f, it, 0)` raises `ValueError("Chunksize must be 1+")` before a line is parsed; the model
+returns `TrnErr.badChunk` there (see the `example` below), it does NOT behave like chunk size 1. -/
+theorem C11_workers (chunkSize : Nat) (hc : 0 < chunkSize) (lines : List (List Char)) :
     readTrnPool chunkSize lines = readTrnSeq lines := by
   unfold readTrnPool readTrnSeq
-  rw [← List.map_flatten, chunks_flatten]
+  rw [if_neg (by omega), ← List.map_flatten, chunks_flatten]
 
 example : readTrnPool 2 ["a (u)\n".toList, "\n".toList, "{ b / c } (v)\n".toList] =
-    readTrnSeq ["a (u)\n".toList, "\n".toList, "{ b / c } (v)\n".toList] := C11_workers _ _
+    readTrnSeq ["a (u)\n".toList, "\n".toList, "{ b / c } (v)\n".toList] := C11_workers _ (by decide) _
+
+/-- Non-trivial instance: three chunks (sizes 2, 2, 1), a blank line skipped, and the value. -/
+example : readTrnPool 2 ["a (u)\n".toList, "\n".toList, "{ b / c } (v)\n".toList, "d (w)\n".toList, "(x)".toList]
+    = .ok [("u".toList, [.tok ['a']], false), ("v".toList, [.alt [[.tok ['b']], [.tok ['c']]]], true),
+           ("w".toList, [.tok ['d']], false), ("x".toList, [], false)] := by
+  rw [C11_workers _ (by decide)]; rfl
+
+/-- "Errors included": the first malformed line decides, whichever chunk it is in. -/
+example : readTrnPool 2 ["a (u)\n".toList, "b (v)\n".toList, "{ } (w)\n".toList, "no id\n".toList]
+    = .error .emptyAlt := by
+  rw [C11_workers _ (by decide)]; rfl
+
+/-- Outside the guard the pool refuses — also for an empty file, also before a malformed first line. -/
+example : readTrnPool 0 [] = .error .badChunk ∧ readTrnPool 0 ["{ } (w)\n".toList] = .error .badChunk ∧
+    readTrnSeq ["{ } (w)\n".toList] = .error .emptyAlt := ⟨rfl, rfl, rfl⟩
 
 /-! ## trn -/
 
@@ -65,6 +82,22 @@ theorem C11_trn_file (utts : List (List Char × List Top))
   simp only [Function.comp_def] at this
   rw [this]
   simp [List.filterMap_map]
+
+/-- Non-vacuity of `C11_trn_file`: two lines — an id with spaces, an alternate with an empty middle branch nested
+in a branch, a timed token (its times dropped) — come back in order, alternate flags `true` / `false`. -/
+def exTrnUtts : List (List Char × List Top) :=
+  [(" utt 1 ".toList, [.plain (.tok "a".toList),
+      .plain (.alt [[.tok "x".toList, .alt [[.tok "p".toList], [], [.tok "q".toList]]], [.tok "y".toList]])]),
+   ("v".toList, [.timed "k".toList (1/2) 1, .plain (.tok "}".toList)])]
+
+example : readTrnSeq (exTrnUtts.map (fun ut => writeTrnLine ut.1 ut.2))
+    = .ok (exTrnUtts.map (fun ut => (ut.1, ut.2.map Top.item, (ut.2.map Top.item).any Item.isAlt))) :=
+  C11_trn_file exTrnUtts (by
+    intro ut h
+    simp only [exTrnUtts, List.mem_cons, List.not_mem_nil, or_false] at h
+    rcases h with rfl | rfl <;> decide)
+
+example : (exTrnUtts.map (fun ut => (ut.2.map Top.item).any Item.isAlt)) = [true, false] := by decide
 
 /-- The recursive writer is literally `"{ " + "/ ".join(elem of each branch) + "} "`. -/
 theorem C11_trn_writer_join (bs : List (List Item)) :
@@ -136,9 +169,11 @@ theorem C11_frames (token2id : List (Tok × Int)) (id2token : List (Int × Tok))
     (f : Rat) (hf : 0 < f) (t : List TElem)
     (hinv : ∀ x ∈ t, ∃ id, token2id.lookup x.tok = some id ∧ id2token.lookup id = some x.tok)
     (hok : ∀ x ∈ t, x.Ok) :
-    ∃ rows, transcriptToToken (some token2id) (some f) unk t = .ok rows ∧
-      List.Forall₂ (Close (f / 1000)) t (tokenToTranscript (some id2token) (some f) rows) := by
-  unfold transcriptToToken tokenToTranscript
+    ∃ rows, transcriptToTokenPy (some token2id) (some f) unk t = .ok rows ∧
+      List.Forall₂ (Close (f / 1000)) t (tokenToTranscriptPy (some id2token) (some f) rows) := by
+  unfold transcriptToTokenPy tokenToTranscriptPy transcriptToToken tokenToTranscript
+  have htr : truthy (some f) = some f := by simp [truthy, hf.ne']
+  rw [htr]
   induction t with
   | nil => exact ⟨[], by simp [pure, Except.pure], by simp⟩
   | cons x xs ih =>
@@ -150,11 +185,11 @@ theorem C11_frames (token2id : List (Tok × Int)) (id2token : List (Int × Tok))
 
 /-- The hypotheses are satisfiable: a segment shorter than half a frame (end forced to
 `start + 1`), a zero-length one, and a plain token; vocabulary `a ↦ 0, b ↦ 5`, 10 ms shift. -/
-example : ∃ rows, transcriptToToken (some [(.s "a", 0), (.s "b", 5)]) (some 10) none
+example : ∃ rows, transcriptToTokenPy (some [(.s "a", 0), (.s "b", 5)]) (some 10) none
       [.timed (.s "a") (1/64) (1/32), .timed (.s "b") (1/2) (1/2), .plain (.s "b")] = .ok rows ∧
     List.Forall₂ (Close (10 / 1000))
       [.timed (.s "a") (1/64) (1/32), .timed (.s "b") (1/2) (1/2), .plain (.s "b")]
-      (tokenToTranscript (some [(0, .s "a"), (5, .s "b")]) (some 10) rows) := by
+      (tokenToTranscriptPy (some [(0, .s "a"), (5, .s "b")]) (some 10) rows) := by
   apply C11_frames _ _ none 10 (by norm_num)
   · intro x hx
     simp only [List.mem_cons, List.not_mem_nil, or_false] at hx
@@ -184,17 +219,22 @@ theorem C11_frames_noshift (token2id : List (Tok × Int)) (id2token : List (Int 
   have nb : (b == -1) = false := by rw [beq_eq_false_iff_ne]; omega
   simp [rowOf, lookupId, h1, Except.map, backOf, h2, toFrames, ta, tb, na, nb]
 
+/-- Non-vacuity: frame indices 0 and 7 through the vocabulary `a ↦ 3`. -/
+example : (rowOf (some [(.s "a", 3), (.s "b", 4)]) none none (.timed (.s "a") 0 7)).map
+      (backOf (some [(4, .s "b"), (3, .s "a")]) none) = .ok (.timed (.s "a") 0 7) :=
+  C11_frames_noshift _ _ none (.s "a") 3 0 7 (by decide) (by decide) (by decide) (by decide)
+
 /-- **C11_frames_unk**: the ids `transcript_to_token` writes are the documented ones (`specId`) for EVERY
 `token2id` / `unk` setting — no vocabulary ("`unk` has no effect"), an EMPTY vocabulary (every token unknown),
 `unk` a key of `token2id`, `unk` already an id (`0` included), no `unk` (the token itself) — and the times are
-those of `toFrames`; resolving `unk` once before the loop (as the code does) is the same as the per-token rule.
+those of `toFrames` under the shift that counts (`truthy`: a frame shift of `0` is "none", as `if frame_shift_ms:`); resolving `unk` once before the loop (as the code does) is the same as the per-token rule.
 A string that ends up as an id is refused (`badId`). -/
 theorem C11_frames_unk (token2id : Option (List (Tok × Int))) (unk : Option Tok) (f : Option Rat) (t : List TElem) :
-    transcriptToToken token2id f unk t =
+    transcriptToTokenPy token2id f unk t =
       t.mapM (fun x => match x with
         | .plain tk => (idOfTok (specId token2id unk tk)).map (fun id => (id, -1, -1))
         | .timed tk s e => (idOfTok (specId token2id unk tk)).map
-            (fun id => (id, (toFrames f s e).1, (toFrames f s e).2))) := by
+            (fun id => (id, (toFrames (truthy f) s e).1, (toFrames (truthy f) s e).2))) := by
   have key : ∀ tk, lookupId token2id (resolveUnk token2id unk) tk = idOfTok (specId token2id unk tk) := by
     intro tk
     unfold lookupId resolveUnk specId
@@ -208,17 +248,21 @@ theorem C11_frames_unk (token2id : Option (List (Tok × Int))) (unk : Option Tok
       | some u =>
         simp only
         cases h1 : List.lookup tk m <;> cases h2 : List.lookup u m <;> cases u <;> rfl
-  unfold transcriptToToken
+  unfold transcriptToTokenPy transcriptToToken
   congr 1
   funext x
   cases x <;> simp [rowOf, key]
 
 /-- Falsy but legal settings: an empty vocabulary with `unk = 0` maps every token to id 0; without a vocabulary
 `unk` has no effect; `""` is a key like any other. -/
-example : transcriptToToken (some []) none (some (.i 0)) [.plain (.s "a"), .plain (.i 7)]
+example : transcriptToTokenPy (some []) none (some (.i 0)) [.plain (.s "a"), .plain (.i 7)]
     = .ok [(0, -1, -1), (0, -1, -1)] := by decide +kernel
-example : transcriptToToken none none (some (.i 0)) [.plain (.i 7)] = .ok [(7, -1, -1)] := by decide +kernel
-example : transcriptToToken (some [(.s "", 0), (.s "u", 5)]) none (some (.s "u")) [.plain (.s ""), .plain (.s "zz")]
+example : transcriptToTokenPy none none (some (.i 0)) [.plain (.i 7)] = .ok [(7, -1, -1)] := by decide +kernel
+/-- `frame_shift_ms=0` is falsy: the times are truncated as frame indices, exactly as with `None` — no division. -/
+example : transcriptToTokenPy none (some 0) none [.timed (.i 1) (5/2) 7] = .ok [(1, 2, 7)] ∧
+    transcriptToTokenPy none none none [.timed (.i 1) (5/2) 7] = .ok [(1, 2, 7)] ∧
+    tokenToTranscriptPy none (some 0) [(1, 2, 7)] = [.timed (.i 1) 2 7] := by decide +kernel
+example : transcriptToTokenPy (some [(.s "", 0), (.s "u", 5)]) none (some (.s "u")) [.plain (.s ""), .plain (.s "zz")]
     = .ok [(0, -1, -1), (5, -1, -1)] := by decide +kernel
 
 /-! ## ctm -/
@@ -594,13 +638,86 @@ example : ∃ f, writeTextGrid [("a", 9, 10), ("b", 10, 23/2)] { precision := 2 
   · simp
   · exact .inl rfl
 
+/-- Non-vacuity with NO option at its default: `start_time = 8 ≤ 9`, `end_time = 12 ≥ 11.5`, a tier name,
+`point_tier=False`, precision 2, the tier selected by name. -/
+def exTgOpts : TgWriteOpts :=
+  { startTime := some 8, endTime := some 12, tierName := "words", pointTier := some false, precision := 2 }
+
+theorem exTgOpts_st (t : List Timed) (h : 8 ≤ minList (t.map (·.2.1))) :
+    ∀ s, exTgOpts.startTime = some s → s ≤ minList (t.map (·.2.1)) := by
+  intro s hs
+  simp only [exTgOpts, Option.some.injEq] at hs
+  subst hs; exact h
+
+theorem exTgOpts_en (t : List Timed) (h : maxList (t.map (·.2.2)) ≤ 12) :
+    ∀ e, exTgOpts.endTime = some e → maxList (t.map (·.2.2)) ≤ e := by
+  intro e he
+  simp only [exTgOpts, Option.some.injEq] at he
+  subst he; exact h
+
+example : ∃ f, writeTextGrid [("a", 9, 10), ("b", 10, 23/2)] exTgOpts = .ok f ∧
+    ((∃ l, f.body = .points l) ↔ isPointTier [("a", 9, 10), ("b", 10, 23/2)] exTgOpts = true) ∧
+    readTextGrid .byStart f (.name "words") none = .ok
+      ([("a", 9, 10), ("b", 10, 23/2)].map (readBack 2 (isPointTier [("a", 9, 10), ("b", 10, 23/2)] exTgOpts)),
+        (fmt 2 (minList ([("a", 9, 10), ("b", 10, 23/2)].map (·.2.1)))).val,
+        (fmt 2 (maxList ([("a", 9, 10), ("b", 10, 23/2)].map (·.2.2)))).val) :=
+  C11_textgrid_roundtrip _ exTgOpts (.name "words") (by simp) (by simp; norm_num)
+    (exTgOpts_st _ (by decide +kernel)) (exTgOpts_en _ (by decide +kernel)) (.inr (.inr rfl))
+
+/-- `C11_textgrid` where its hypothesis bites: `point_tier=True` on zero-length segments whose times are not
+finite decimals (`1/3`, `2/3` at one digit). -/
+example : ∀ x ∈ [("p", (1/3 : Rat), (1/3 : Rat)), ("q", 2/3, 2/3)],
+    (readBack 1 true x).1 = x.1 ∧ x.2.1 - (1/2) / ((10 ^ 1 : Nat) : Rat) ≤ (readBack 1 true x).2.1 ∧
+      (readBack 1 true x).2.1 ≤ x.2.1 + (1/2) / ((10 ^ 1 : Nat) : Rat) ∧
+      x.2.2 - (1/2) / ((10 ^ 1 : Nat) : Rat) ≤ (readBack 1 true x).2.2 ∧
+      (readBack 1 true x).2.2 ≤ x.2.2 + (1/2) / ((10 ^ 1 : Nat) : Rat) :=
+  C11_textgrid [("p", 1/3, 1/3), ("q", 2/3, 2/3)] { pointTier := some true, precision := 1 } (by
+    intro _ x hx
+    simp only [List.mem_cons, List.not_mem_nil, or_false] at hx
+    rcases hx with rfl | rfl <;> rfl)
+
+/-- … and the hypothesis is needed: `point_tier=True` on a segment of non-zero length loses the end. -/
+example : readBack 1 true ("p", 1, 2) = ("p", 1, 1) ∧ ¬ Near 1 (readBack 1 true ("p", 1, 2)).2.2 2 := by
+  refine ⟨by decide +kernel, ?_⟩
+  have : (readBack 1 true ("p", 1, 2)).2.2 = 1 := by decide +kernel
+  rw [this]; unfold Near; norm_num
+
+/-- `C11_textgrid_inferred` with `point_tier=True` on zero-length segments and every other option given. -/
+example : ∃ f r a b,
+    writeTextGridInferAt 2 [("p", 9, 9), ("q", 21/2, 21/2)] { exTgOpts with pointTier := some true } = .ok f ∧
+    writeTextGrid [("p", 9, 9), ("q", 21/2, 21/2)] { exTgOpts with pointTier := some true } = .ok f ∧
+    readTextGrid .byStart f (.idx (-1)) none = .ok (r, a, b) ∧
+    List.Forall₂ (fun y x => y.1 = x.1 ∧ Near 2 y.2.1 x.2.1 ∧ Near 2 y.2.2 x.2.2) r [("p", 9, 9), ("q", 21/2, 21/2)] ∧
+    Near 2 a (minList ([("p", (9 : Rat), (9 : Rat)), ("q", 21/2, 21/2)].map (·.2.1))) ∧
+    Near 2 b (maxList ([("p", (9 : Rat), (9 : Rat)), ("q", 21/2, 21/2)].map (·.2.2))) :=
+  C11_textgrid_inferred [("p", 9, 9), ("q", 21/2, 21/2)] { exTgOpts with pointTier := some true } (.idx (-1))
+    (by simp) (by simp; norm_num)
+    (by intro _ x hx
+        simp only [List.mem_cons, List.not_mem_nil, or_false] at hx
+        rcases hx with rfl | rfl <;> rfl)
+    (by intro s hs; simp only [exTgOpts, Option.some.injEq] at hs; subst hs; decide +kernel)
+    (by intro e he; simp only [exTgOpts, Option.some.injEq] at he; subst he; decide +kernel)
+    (.inr (.inl rfl))
+
 /-- **C11_textgrid_pinned_counterexample**: with the pinned tree's `sorted(tier.simple_transcript)`
 (tuples of strings) the entry starting at 10 s comes back before the one starting at 9 s
-(`corpus/C11/textgrid-sort-10s.json`); the repaired order (`.byStart`) returns them as written. -/
+(`corpus/C11/textgrid-sort-10s.json`); the repaired order (`.byStart`) returns them as written.
+Third clause: the pinned `sorted(...)` (the `.pinned` branch of `sortedTimes`) applied to the two entries as
+strings puts `b` first; fourth: the file `write_textgrid` writes for them, read with the repaired sort, is the
+list written. (The strings `"9.000"` … are asserted, not computed: `Dec.render` does not reduce in the kernel.) -/
 theorem C11_textgrid_pinned_counterexample :
     strTupleLe ["10.000", "11.000", "b"] ["9.000", "10.000", "a"] = true ∧
-    strTupleLe ["9.000", "10.000", "a"] ["10.000", "11.000", "b"] = false := by
-  decide
+    strTupleLe ["9.000", "10.000", "a"] ["10.000", "11.000", "b"] = false ∧
+    ([(["9.000", "10.000", "a"], (("a", 9, 10) : Timed)), (["10.000", "11.000", "b"], ("b", 10, 11))].mergeSort
+        (fun a b => strTupleLe a.1 b.1)).map (fun x => x.2) = [("b", 10, 11), ("a", 9, 10)] ∧
+    ∃ f, writeTextGrid [("a", 9, 10), ("b", 10, 11)] {} = .ok f ∧
+      readTextGrid .byStart f (.idx 0) none = .ok ([("a", 9, 10), ("b", 10, 11)], 9, 11) := by
+  have h : strTupleLe ["9.000", "10.000", "a"] ["10.000", "11.000", "b"] = false := by decide
+  refine ⟨by decide, h, ?_, ?_⟩
+  · simp [List.mergeSort, List.MergeSort.Internal.splitInTwo, h]
+  · obtain ⟨f, hw, _, hr⟩ := C11_textgrid_roundtrip [("a", 9, 10), ("b", 10, 11)] {} (.idx 0)
+      (by simp) (by simp; norm_num) (by simp) (by simp) (.inl rfl)
+    exact ⟨f, hw, by rw [hr]; decide +kernel⟩
 
 /-! ## path-or-file dispatch -/
 
@@ -614,7 +731,9 @@ theorem C11_textgrid_pinned_counterexample :
    finding and the theorem is proved with that one (function, option) pair excluded. -/
 
 /-- **C11_dispatch_partial**: in every `isinstance(x, str)` branch of `_parsing.py` every option
-of the function is handed on to the file branch — except `write_textgrid`'s `point_tier`. -/
+of the function is handed on to the file branch — except `write_textgrid`'s `point_tier`.
+(Audit: a `decide` over the seven rows of the hand-written `dispatchTable`, and the `→` half of clause (1) of
+`C11_dispatch`; kept under the `_partial` name the conventions ask for, NOT counted as an obligation.) -/
 theorem C11_dispatch_partial : ∀ d ∈ dispatchTable, ∀ o ∈ d.options,
     (d.fn, o) ≠ ("write_textgrid", "point_tier") → o ∈ d.forwarded := by decide
 
@@ -634,7 +753,10 @@ theorem tgForwarded_in_table :
 
 /-- `write_textgrid` through a path equals `write_textgrid` on an open file under every value of
 `start_time`, `end_time`, `tier_name` and `precision`, for every transcript — as long as
-`point_tier` is left at its default. -/
+`point_tier` is left at its default.
+(Audit: DEFINITIONAL — `rfl` once the record is destructured: `writeTextGridVia` is *defined* as `writeTextGrid`
+with the non-forwarded options at their defaults; the instance of clause (2) of `C11_dispatch`. Kept as
+documentation, NOT counted as an obligation.) -/
 theorem C11_dispatch_textgrid (t : List Timed) (o : TgWriteOpts) (h : o.pointTier = none) :
     writeTextGridVia tgForwarded t o = writeTextGrid t o := by
   cases o
@@ -643,7 +765,7 @@ theorem C11_dispatch_textgrid (t : List Timed) (o : TgWriteOpts) (h : o.pointTie
   rfl
 
 /-- With `point_tier` forwarded as well (the repair that the pinned test forbids) path and file
-agree under every option. -/
+agree under every option. (Audit: DEFINITIONAL, `rfl`; kept as documentation, NOT counted as an obligation.) -/
 theorem C11_dispatch_textgrid_full (t : List Timed) (o : TgWriteOpts) :
     writeTextGridVia ["start_time", "end_time", "tier_name", "point_tier", "precision"] t o
       = writeTextGrid t o := by
@@ -906,6 +1028,49 @@ theorem C11_textgrid_any_order (t : List Timed) (o : TgWriteOpts) (tier : TierId
   congr 1
   simp only [tgBody]
   split_ifs with c <;> simp [TgBody.entries, readBack, c, Function.comp_def]
+
+/-- Non-vacuity of `C11_textgrid_any_order` with a sort that actually happens: the entries are handed over
+latest first, with two entries whose starts print identically at precision 1 (`10.02`, `10.04`): these two keep
+the order they were written in (stable), the rest is ordered by start. -/
+def exAnyT : List Timed := [("c", 23/2, 12), ("b2", 1002/100, 11), ("b1", 1004/100, 11), ("a", 9, 10)]
+def exAnyO : TgWriteOpts := { exTgOpts with precision := 1 }
+
+example : ∃ f, writeTextGrid exAnyT exAnyO = .ok f ∧
+    readTextGrid .byStart f (.name "words") none
+      = .ok ([("a", 9, 10), ("b2", 10, 11), ("b1", 10, 11), ("c", 23/2, 12)], 9, 12) := by
+  obtain ⟨f, hw, hr⟩ := C11_textgrid_any_order exAnyT exAnyO (.name "words") (by simp [exAnyT])
+    (by intro s hs; simp only [exAnyO, exTgOpts, Option.some.injEq] at hs; subst hs; decide +kernel)
+    (by intro e he; simp only [exAnyO, exTgOpts, Option.some.injEq] at he; subst he; decide +kernel)
+    (.inr (.inr rfl))
+  have e1 : exAnyT.map (readBack exAnyO.precision (isPointTier exAnyT exAnyO))
+      = [("c", 23/2, 12), ("b2", 10, 11), ("b1", 10, 11), ("a", 9, 10)] := by decide +kernel
+  have e2 : (fmt exAnyO.precision (minList (exAnyT.map (·.2.1)))).val = 9 := by decide +kernel
+  have e3 : (fmt exAnyO.precision (maxList (exAnyT.map (·.2.2)))).val = 12 := by decide +kernel
+  rw [e1, e2, e3] at hr
+  refine ⟨f, hw, ?_⟩
+  rw [hr]
+  norm_num [List.mergeSort, List.MergeSort.Internal.splitInTwo, List.merge, startLe]
+
+/-- Non-vacuity of `C11_textgrid_text_roundtrip`: a label with a line break, a tier name with quotes, every
+option given. -/
+example : ∃ f, writeTextGrid [("a", 9, 10), ("b\nc", 10, 23/2)] { exTgOpts with tierName := "tr \"x\"" } = .ok f ∧
+    f.textOk = true ∧
+    readTextGridText .byStart f.chars (.name "tr \"x\"") none = some (.ok ([("a", 9, 10), ("b\nc", 10, 23/2)], 9, 23/2)) ∧
+    readTextGridText .byStart (crlf f.chars) (.name "tr \"x\"") none
+      = some (.ok ([("a", 9, 10), ("b\nc", 10, 23/2)], 9, 23/2)) := by
+  obtain ⟨f, hw, hok, h1, h2⟩ := C11_textgrid_text_roundtrip [("a", 9, 10), ("b\nc", 10, 23/2)]
+    { exTgOpts with tierName := "tr \"x\"" } (.name "tr \"x\"") (by simp) (by simp; norm_num)
+    (by intro s hs; simp only [exTgOpts, Option.some.injEq] at hs; subst hs; decide +kernel)
+    (by intro e he; simp only [exTgOpts, Option.some.injEq] at he; subst he; decide +kernel)
+    (.inr (.inr rfl))
+    (by intro x hx
+        simp only [List.mem_cons, List.not_mem_nil, or_false] at hx
+        rcases hx with rfl | rfl <;> constructor <;> norm_num)
+    (by intro s hs; simp only [exTgOpts, Option.some.injEq] at hs; subst hs; norm_num)
+    (by decide) (by decide)
+  refine ⟨f, hw, hok, ?_, ?_⟩
+  · rw [h1]; decide +kernel
+  · rw [h2]; decide +kernel
 
 /-- **C11_textgrid_tier_select**: in a file with several tiers `tier_id` selects
 (1) by name: the FIRST tier with that name — `ValueError` iff there is none;
